@@ -20,9 +20,10 @@ from pv.engine import sym
 from pv.engine.explore import Explorer, HarnessError, Query
 from pv.props.c04 import children_of
 
-BOUNDS = {"quick": {"patterns": 24, "substitutions": 5, "operand_orders": "as built and reversed", "cross_pairs": "every pattern "
+BOUNDS = {"quick": {"patterns": "24 hand-written + every 12th of 550 generated sums/products of 2-3 pattern pieces", "substitutions": 5, "operand_orders": "as built and reversed", "cross_pairs": "every pattern "
                     "against instances of every other pattern", "max_paths": 64},
-          "thorough": {"cross_pairs": "all", "max_paths": 256}}
+          "thorough": {"patterns": "24 + all 550 generated", "candidate_sets": "full, minimal and every proper subset of the pattern's variables",
+                       "cross_pairs": "all 24 hand-written", "max_paths": 256}}
 ASSUMPTIONS = ["equal modulo AC implies equal value under every interpretation: the solver clause is a necessary condition",
                "matchpy's own algorithms are exercised, not encoded"]
 RULE = "one item per (pattern, target family); records checked individually"
@@ -48,6 +49,34 @@ def patterns():
         p.Call(f, (S(a, b),)), S(a, p.Call(f, (a,))), P(a, b, c), S(p.Power(a, 2), p.Power(b, 2), c), P(p.Call(f, (a,)), p.Call(f, (b,)), c),
         S(a, P(b, p.Call(g, (a,)))), p.Power(S(a, b), c), S(p.Subscript(arr, a), b),
     ]
+
+
+def generated_patterns():
+    """every sum / product of 2 or 3 operands drawn (with repetition) from a pool of pattern pieces"""
+    a, b, c, f, g, arr = V("a"), V("b"), V("c"), V("f"), V("g"), V("arr")
+    pools = {
+        p.Sum: [a, b, c, p.Call(f, (a,)), p.Call(f, (b,)), p.Call(g, (a,)), P(a, b), P(2, a), p.Power(a, 2), p.Subscript(arr, b)],
+        p.Product: [a, b, c, p.Call(f, (a,)), p.Call(f, (b,)), S(a, 1), S(a, b), p.Power(a, 2), p.Subscript(arr, b), 2],
+    }
+    out = []
+    for cls, pool in pools.items():
+        for k in (2, 3):
+            for combo in itertools.combinations_with_replacement(range(len(pool)), k):
+                kids = tuple(pool[i] for i in combo)
+                if all(not isinstance(x, p.Expression) for x in kids):
+                    continue
+                out.append(cls(kids))
+    return out
+
+
+_PAT_CACHE = {}
+
+
+def all_patterns(tier):
+    if tier not in _PAT_CACHE:
+        gen = generated_patterns()
+        _PAT_CACHE[tier] = patterns() + (gen if tier == "thorough" else gen[5::12])
+    return _PAT_CACHE[tier]
 
 
 def substitutions():
@@ -191,7 +220,7 @@ def _paths(ex, harness, res):
 
 def check_unify(pi, tier, twin=False):
     from pymbolic.mapper.unifier import UnidirectionalUnifier
-    pats = patterns()
+    pats = all_patterns(tier)
     pat = pats[pi]
     res = ItemResult(item=f"unify pattern {pat}", sample={"pattern": str(pat), "candidates": CAND})
     q = Query()
@@ -211,19 +240,22 @@ def check_unify(pi, tier, twin=False):
         for k in (1, 2, 3):
             targets.append((f"extended{k}", type(pat)(tuple(t.children) + extra[:k]), False))
             targets.append((f"extended{k}-reversed", type(pat)(tuple(reversed(tuple(t.children) + extra[:k]))), False))
-    others = pats if tier == "thorough" else pats[::3]
+    others = patterns() if tier == "thorough" else patterns()[::3]
     for oj, other in enumerate(others):
         if other is not pat:
             targets.append((f"other{oj}", subst(other, substitutions()[0][1]), False))
     for tname, target, must_match in targets:
-        for cands in ([CAND] if not twin else [CAND]) + ([sorted(used)] if used and sorted(used) != CAND else []):
+        cand_sets = [CAND] + ([sorted(used)] if used and sorted(used) != CAND else [])
+        if tier == "thorough" and not twin:
+            cand_sets += [list(cs) for k in range(0, len(used)) for cs in itertools.combinations(sorted(used), k)]
+        for cands in cand_sets:
             try:
                 recs = UnidirectionalUnifier(cands)(pat, target)
             except Exception as e:  # noqa: BLE001
                 _viol(res, f"unify {pat} ~ {target} raises", "unify-raises", f"unify({pat}, {target}) raised {e!r}")
                 continue
             res.path_assertions += 1
-            if must_match and not recs:
+            if must_match and used <= set(cands) and not recs:
                 _viol(res, f"unify {pat} ~ {target} [{tname}] none", "unify-no-record",
                       f"target {target} is the pattern {pat} under an injective renaming, but no record was returned")
             for rec in recs[:6]:
@@ -388,7 +420,7 @@ def check_matchpy_match():
 
 
 def items(tier):
-    return [("unify", i) for i in range(len(patterns()))] + [("mp_roundtrip",), ("mp_match",)]
+    return [("unify", i) for i in range(len(all_patterns(tier)))] + [("mp_roundtrip",), ("mp_match",)]
 
 
 def twins(tier):
